@@ -93,4 +93,74 @@ mod verif_witness_generated_app {
         }
         let _ = std::fs::remove_dir_all(scratch);
     }
+    /// The whole of GeneratedApp::persist on real scratch projects (package graph from `cargo metadata --offline`), for three
+    /// shapes of the root manifest: `--check` on a project that has no SDK yet creates and modifies nothing and reports; a
+    /// normal run writes; `--check` right after is satisfied and touches nothing; a second normal run touches nothing.
+    #[test]
+    fn the_whole_persist_converges_and_check_mode_touches_nothing() {
+        use cargo_manifest::{Dependency, DependencyDetail};
+        fn tree(root: &std::path::Path) -> Vec<(String, Vec<u8>, SystemTime)> {
+            fn walk(d: &std::path::Path, root: &std::path::Path, out: &mut Vec<(String, Vec<u8>, SystemTime)>) {
+                for e in std::fs::read_dir(d).unwrap() { let e = e.unwrap(); let p = e.path();
+                    if p.file_name().unwrap() == "target" || p.file_name().unwrap() == "Cargo.lock" { continue; }
+                    let rel = p.strip_prefix(root).unwrap().to_string_lossy().into_owned();
+                    if p.is_dir() { out.push((rel + "/", vec![], SystemTime::UNIX_EPOCH)); walk(&p, root, out); }
+                    else { out.push((rel, std::fs::read(&p).unwrap(), e.metadata().unwrap().modified().unwrap())); } }
+            }
+            let mut v = vec![]; walk(root, root, &mut v); v.sort_by(|a, b| a.0.cmp(&b.0)); v
+        }
+        fn age_all(root: &std::path::Path) { for (rel, _, _) in tree(root) { if !rel.ends_with('/') { age(&root.join(rel)); } } }
+        let roots = [
+            ("plain package", "[package]\nname = \"demo_project\"\nversion = \"0.1.0\"\nedition = \"2021\"\n\n[dependencies]\ndep = { path = \"dep\" }\n"),
+            ("workspace without the sdk", "[package]\nname = \"demo_project\"\nversion = \"0.1.0\"\nedition = \"2021\"\n\n[dependencies]\ndep = { path = \"dep\" }\n\n[workspace]\nmembers = [\".\", \"dep\"]\n"),
+            ("workspace without a members key", "[package]\nname = \"demo_project\"\nversion = \"0.1.0\"\nedition = \"2021\"\n\n[dependencies]\ndep = { path = \"dep\" }\n\n[workspace]\nresolver = \"2\"\n"),
+        ];
+        for (n, (what, root_manifest)) in roots.iter().enumerate() {
+            let project = dir(&format!("whole{n}"));
+            std::fs::create_dir_all(project.join("src")).unwrap(); std::fs::create_dir_all(project.join("dep/src")).unwrap();
+            std::fs::write(project.join("Cargo.toml"), root_manifest).unwrap();
+            std::fs::write(project.join("src/lib.rs"), "").unwrap();
+            std::fs::write(project.join("dep/Cargo.toml"), "[package]\nname = \"dep\"\nversion = \"0.1.0\"\nedition = \"2021\"\n").unwrap();
+            std::fs::write(project.join("dep/src/lib.rs"), "").unwrap();
+            let app = || {
+                let package_graph = guppy::MetadataCommand::new().manifest_path(project.join("Cargo.toml")).other_options(["--offline".to_string()]).exec()
+                    .expect("cargo metadata --offline on the scratch project").build_graph().unwrap();
+                let root = package_graph.workspace().root().as_std_path().to_path_buf();
+                let mut m = manifest();
+                m.dependencies.insert("dep".to_string(), Dependency::Detailed(DependencyDetail { path: Some(root.join("dep").to_str().unwrap().to_owned()), ..Default::default() }));
+                m.dependencies.insert("http".to_string(), Dependency::Simple("1".into()));
+                GeneratedApp { lib_rs: quote::quote! { pub fn run() -> u8 { 1 } }, cargo_toml: m, package_graph }
+            };
+            // (1) --check before anything was generated
+            age_all(&project);
+            let before = tree(&project);
+            let mut w = AppWriter::check_mode();
+            let r = app().persist(std::path::Path::new("server_sdk"), &mut w);
+            let after_check = tree(&project).into_iter().filter(|(rel, _, _)| !rel.ends_with('/')).collect::<Vec<_>>();
+            assert_eq!(after_check, before.iter().cloned().filter(|(rel, _, _)| !rel.ends_with('/')).collect::<Vec<_>>(), "{what}: --check created or modified a FILE before the first generation");
+            if r.is_ok() { assert!(w.verify().is_err(), "{what}: --check exits 0 although nothing has been generated yet"); }
+            let _ = std::fs::remove_dir_all(project.join("server_sdk"));
+            // (2) a normal run
+            let mut w = AppWriter::update_mode();
+            app().persist(std::path::Path::new("server_sdk"), &mut w).unwrap();
+            assert!(project.join("server_sdk/Cargo.toml").is_file() && project.join("server_sdk/src/lib.rs").is_file(), "{what}: the SDK was not written");
+            let root_now = std::fs::read_to_string(project.join("Cargo.toml")).unwrap();
+            assert!(root_now.contains("server_sdk"), "{what}: the generated crate was not added to the workspace members: {root_now}");
+            age_all(&project);
+            let first = tree(&project);
+            // (3) --check right after: satisfied, and nothing is touched
+            let mut w = AppWriter::check_mode();
+            app().persist(std::path::Path::new("server_sdk"), &mut w).unwrap();
+            assert!(w.verify().is_ok(), "{what}: --check fails right after a normal run");
+            assert_eq!(tree(&project), first, "{what}: --check touched something");
+            // (4) a second normal run on unchanged inputs
+            let mut w = AppWriter::update_mode();
+            app().persist(std::path::Path::new("server_sdk"), &mut w).unwrap();
+            let second = tree(&project);
+            for (a, b) in first.iter().zip(&second) { assert_eq!((&a.0, String::from_utf8_lossy(&a.1), a.2), (&b.0, String::from_utf8_lossy(&b.1), b.2), "{what}: re-running on unchanged inputs modified {}", a.0); }
+            assert_eq!(first.len(), second.len(), "{what}: re-running on unchanged inputs created or removed files");
+            let _ = std::fs::remove_dir_all(project);
+        }
+        println!("VERIF-BOUNDED test=the_whole_persist_converges_and_check_mode_touches_nothing evaluations=3 bound=three root-manifest shapes (plain package, workspace without the sdk, workspace without members) x (check, run, check, run) on real scratch projects");
+    }
 }
